@@ -2,6 +2,7 @@
 import os
 from checklib import *
 from fmt_engine import *
+from proto_engine import keep_file
 
 MODULE = "Feox.Props.C15"
 THEOREMS = [
@@ -32,6 +33,12 @@ def run(ctx):
         for l in read_lines(os.path.join(o["dir"], "fmt.oracle")):
             if reported < 3:
                 reported += 1
+                toks = []
+                for t in l.split(" "):
+                    if t.startswith("/dev/shm/") and os.path.exists(t):
+                        t = keep_file(ctx, t, "mig%d" % reported)
+                    toks.append(t)
+                l = " ".join(toks)
                 violation(ctx, "migration property fails on the implementation: " + l, "# %s\n" % l, tag="oracle")
         lines += len(o["ops"])
         for op, im, mo in zip(o["ops"], o["impl"], o["model"]):
